@@ -74,10 +74,14 @@ def _case(draw, tier):
     if prob(draw, 0.3):
         # a limit just above the number of function nodes written in the program (map fan-out may still exceed it)
         k = min(_leaves(nodes) + draw(st.integers(0, 1)), 8)
-    pre = draw(st.sampled_from([None, None, None, "empty_map", "zip_error"]))
+    pre = draw(st.sampled_from([None, None, None, "empty_map", "zip_error", "failing_map", "failing_map"]))
     return {"nodes": nodes, "k": k, "via_map": prob(draw, 0.3), "nitems": draw(st.integers(1, 6)),
             "sched": draw(st.lists(st.integers(0, 9), max_size=80)), "adversarial": prob(draw, 0.8),
-            "pre": pre, "pre_k": draw(st.integers(1, 8))}
+            "pre": pre, "pre_k": draw(st.integers(1, 8)),
+            # a leaf that raises (errors collected): the limit must not change which siblings run or what is returned
+            "fail_leaf": draw(st.integers(0, 4)) if prob(draw, 0.25) else None,
+            # the step budget the unlimited run just manages with must be enough for the limited run as well
+            "tight_iterations": prob(draw, 0.3)}
 
 
 def _leaves(nodes):
@@ -148,6 +152,18 @@ def check_case(case, ev):
 
     from hypergraph import AsyncRunner
 
+    run_kw = {}
+    top_leaves = [i for i, n in enumerate(nodes) if n["k"] == "func"]
+    if case.get("fail_leaf") is not None and top_leaves:
+        i = top_leaves[case["fail_leaf"] % len(top_leaves)]
+        nodes = [dict(n) for n in nodes]
+        nodes[i]["fail"] = "always"
+        run_kw["error_handling"] = "continue"
+        labels.add("failing_leaf_continue")
+    elif case.get("pre") == "failing_map" and top_leaves:
+        nodes = [dict(n) for n in nodes]
+        nodes[top_leaves[0]]["fail"] = {"arg_in": [["px", 0]]}  # fails for the first item of the EARLIER map only
+
     ctx0 = Ctx(compact=True)
     try:
         g0 = make_graph(ctx0, {"nodes": nodes}, "async")
@@ -155,22 +171,53 @@ def check_case(case, ev):
         ev.discard("construct:" + type(e).__name__ + ":" + str(e).split("\n")[0][:50])
         return
     if method == "map":
-        res0 = asyncio.run(AsyncRunner().map(g0, dict(mvals), **kw))
+        res0 = asyncio.run(AsyncRunner().map(g0, dict(mvals), **kw, **run_kw))
         want = [(r.status.value, r.values) for r in res0]
     else:
-        o0 = run_async(g0, mvals)
+        o0 = run_async(g0, mvals, **run_kw)
         want = (o0.status, o0.values)
+        if case.get("tight_iterations") and not run_kw and o0.status == "completed":
+            for m in range(1, 13):
+                ctx0.reset()
+                om = run_async(g0, mvals, max_iterations=m, error_handling="continue")
+                if om.status == "completed":
+                    run_kw["max_iterations"] = m
+                    labels.add("tight_max_iterations")
+                    break
+            ctx0.reset()
+            run_async(g0, mvals, **run_kw)
+    want_calls = sorted(map(repr, ctx0.log))
 
     over = []
 
     def on_q(s):
-        if ctx.inflight > k:
+        if ctx.inflight > phase["limit"]:
             over.append(ctx.inflight)
 
     ctx = Ctx(compact=True)
     g = make_graph(ctx, {"nodes": nodes}, "async")
     pre = None
-    if case.get("pre"):
+    pre_inside = None
+    phase = {"limit": k}
+    if case.get("pre") == "failing_map":
+        # an earlier bounded map in raise mode whose first item fails while others are in flight: when it has raised, nothing
+        # of it may still be executing (or it would add to the next call's k)
+        labels.add("pre:failing_map")
+        pk = max(2, case["pre_k"])
+        phase["limit"] = pk
+        pre_state = {}
+
+        async def pre_inside(runner, hold):
+            try:
+                pre_state["result"] = await runner.map(g, {**vals, "x": [("px", j) for j in range(3)]}, map_over="x", max_concurrency=pk, error_handling="raise", event_processors=[hold])
+            except Exception as e:  # noqa: BLE001 - expected: the injected failure of item 0
+                pre_state["error"] = e
+            phase["limit"] = k
+            phase["leftover"] = ctx.inflight
+            ctx.peak = ctx.inflight
+            ctx.log.clear()
+
+    elif case.get("pre"):
         # an earlier bounded call awaited from the same task that ends without executing anything: an empty batch
         # (returns []) or a zip-length mismatch (raises).  Whatever limit it installed must be gone afterwards.
         labels.add("pre:" + case["pre"])
@@ -184,10 +231,14 @@ def check_case(case, ev):
             except Exception as e:  # noqa: BLE001 - a rejected batch is the point of the zip_error variant
                 pre_state["error"] = e
 
-    out, sched = run_scheduled(ctx, g, mvals, case["sched"], adversarial=case["adversarial"], method=method, on_quiescent=on_q, max_concurrency=k, pre=pre, **kw)
+    out, sched = run_scheduled(ctx, g, mvals, case["sched"], adversarial=case["adversarial"], method=method, on_quiescent=on_q, max_concurrency=k, pre=pre, pre_inside=pre_inside,
+                               **kw, **run_kw)
     if case.get("pre") == "empty_map" and pre_state.get("result") != []:
         raise Violation("c15.empty_map", f"map over an empty list gave {pre_state}")
     tag = f"k={k} width={width} depth={depth} {method}"
+    if phase.get("leftover"):
+        raise Violation("c15.bound_exceeded", f"[{tag}] the earlier map(max_concurrency={phase.get('limit')}, raise mode) had returned (raised) while {phase['leftover']} of its node functions were still executing", via="leftover")
+
     if out.status == "deadlock":
         raise Violation("c15.deadlock", f"[{tag}] {out.error}; parked history tail: {[t[1] for t in sched.trace[-4:]]}", k=k)
     if over or ctx.peak > k:
@@ -195,6 +246,8 @@ def check_case(case, ev):
     if out.status == "raised":
         raise Violation("c15.raised", f"[{tag}] limited run raised {type(out.error).__name__}: {str(out.error)[:200]}")
     got = [(r.status.value, r.values) for r in out.result] if method == "map" else (out.status, out.values)
+    if got == want and not case.get("pre") and sorted(map(repr, ctx.log)) != want_calls:
+        raise Violation("c15.invocations_differ", f"[{tag}] node invocations of the limited run {sorted(map(repr, ctx.log))[:12]} differ from the unlimited run {want_calls[:12]}", via=method)
     if got != want:
         raise Violation("c15.result_differs", f"[{tag}] limited run {J(got)[:1] if False else str(got)[:600]} differs from the unlimited run {str(want)[:600]}", via=method)
     ev.count("runs")
